@@ -658,7 +658,7 @@ def run(ck):
                "setters, 20%% parameter assignments list/ndarray/dict/malformed) always ending with all eleven "
                "evaluators; non-trivial = some mutator or parameter assignment happens after an evaluator was "
                "compiled and an evaluation follows it; distinct by canonical JSON hash") % L
-    ok = ck.coq_build("C08", [("CanaryGen", gen_canary.generate())], extra=("Util.vo", "Canary.vo", "CanaryProofs.vo"))
+    ok = ck.coq_build("C08", [("CanaryGen", gen_canary.generate())], extra=("Util.vo", "Canary.vo", "CanaryProofs.vo", "CanaryComp.vo"))
     common.name_assumptions(ck, "C08")
     if ok and not ck.quick:
         cmd = "timeout 900 coqchk -silent -o -R . PV PV.Props.C08"
